@@ -60,6 +60,11 @@ Step(prev, rec) ==
          \* none missing up to the last one delivered; then the load completes and mirrors that version exactly
          /\ Clause("load_total", rec.clean_load => (rec.res = "ok" /\ rec.phase = "initialized"))
          /\ Clause("load_exact", rec.clean_load => Tables(rec.cpost) = Tables(rec.expect))
+         \* no report that arrived during the load (buffered or while the buffer was replayed) is lost: the consumer
+         \* ends at least at the highest MdibVersion that arrived for its epoch
+         /\ Clause("load_loses_no_arrived_report",
+                   (rec.res = "ok" /\ rec.phase = "initialized" /\ SameEpoch(rec.cpost, rec.snap))
+                      => rec.cpost.mver >= rec.max_arrived_mver)
          /\ Clause("load_not_older", (rec.phase = "initialized" /\ SameEpoch(rec.cpost, rec.snap))
                                         => rec.cpost.mver >= rec.snap.mver)
          /\ Sane(rec)
